@@ -95,7 +95,7 @@ Definition is_dt_kind (k : lkind) : bool :=
 Definition is_stringified_kind (k : lkind) : bool :=
   match k with LDateTime | LDate | LTime | LDur => true | _ => false end.
 Definition is_text_only_kind (k : lkind) : bool :=
-  match k with LDateTime | LDate | LTime | LDur | LBytes => true | _ => false end.
+  match k with LDateTime | LDate | LTime | LDur | LBytes _ => true | _ => false end.
 Definition is_number_kind (k : lkind) : bool := match k with LInt _ => true | _ => false end.
 
 Section DictDeser.
@@ -137,7 +137,7 @@ Section DictDeser.
     (* a value of a type that travels as text must arrive as text *)
     guard_raise g_hier_text_only
       (match inst with JNull => false | _ => negb (is_textlike inst) && is_text_only_kind k end)
-      (match k with LBytes => Raise EAttributeError [] | _ => Raise ETypeError [] end)
+      (match k with LBytes _ => Raise EAttributeError [] | _ => Raise ETypeError [] end)
     (* a number arrives as a number or as its text *)
     (guard_raise g_hier_number_sources
       (match inst with JNull => false | _ => is_number_kind k && negb (is_number_source inst) end)
@@ -147,7 +147,7 @@ Section DictDeser.
          match inst with
          | JBytes b dec =>
              match k with
-             | LBytes => Ret inst
+             | LBytes _ => Ret inst
              | _ => tryS (nth_try 0 hier_from_dict_value_tries)
                          (match dec with Some s => Ret (JStr s) | None => Raise EUnicodeDecodeError [] end)
              end
@@ -162,14 +162,22 @@ Section DictDeser.
            | _ =>
              match k with
              | LText => Ret true
-             | LBytes =>
-                 (* from_serstr(cls, inst, self.binary_encoding): base64 for Json and Yaml; None for
-                    MessagePackDocument, whose decoding handler is the identity *)
-                 match P, inst with
-                 | PMsgpack, _ => Ret true
-                 | _, JStr s => let! _ := read_bytes s in Ret true
-                 | _, JBytes b _ => let! _ := of_out (a2b_go false 0 0 0 [] b) in Ret true
-                 | _, _ => Raise EAttributeError []            (* type(value)().join *)
+             | LBytes e =>
+                 (* from_serstr(cls, inst, self.binary_encoding): the encoding of the class, else the
+                    protocol's (base64 for Json and Yaml; None for MessagePackDocument, whose decoding
+                    handler is the identity).  On bytes: from_base64 joins the value as a sequence
+                    of chunks, which for a non-empty bytes object is a TypeError (caught);
+                    from_urlsafe_base64 and from_hex decode it *)
+                 match e, P, inst with
+                 | BDefault, PMsgpack, _ => Ret true
+                 | BUrl, _, JStr s => let! _ := read_bytes BUrl s in Ret true
+                 | BUrl, _, JBytes b _ => let! _ := from_urlsafe_bytes b in Ret true
+                 | BHex, _, JStr s => let! _ := read_bytes BHex s in Ret true
+                 | BHex, _, JBytes b _ => let! _ := from_hex b in Ret true
+                 | _, _, JStr s => let! _ := read_bytes BBase64 s in Ret true
+                 | _, _, JBytes [] _ => Ret true
+                 | _, _, JBytes _ _ => tryS (nth_try 0 from_base64_tries) (Raise ETypeError [])
+                 | _, _, _ => Raise EAttributeError []            (* type(value)().join *)
                  end
              | LInt msl =>
                  match P, inst with
